@@ -72,6 +72,12 @@ func runC15(raw json.RawMessage, w *Writer) {
 			o1, e1 = used.Unmarshal(cloneBytes(p))
 			o2, e2 = fresh.Unmarshal(cloneBytes(p))
 		})
-		w.Emit(Ev{"ev": "after_loss", "k": k, "res": r, "used_res": outcome("ok", e1), "fresh_res": outcome("ok", e2), "used_out": ints(o1), "fresh_out": ints(o2)})
+		// an output far longer than the oracle's already differs from it: recorded by its length and a prefix (a receiver that
+		// never drops abandoned bytes would otherwise put its whole growing buffer into every event)
+		rec := o1
+		if len(rec) > len(o2)+64 {
+			rec = rec[:len(o2)+64]
+		}
+		w.Emit(Ev{"ev": "after_loss", "k": k, "res": r, "used_res": outcome("ok", e1), "fresh_res": outcome("ok", e2), "used_out": ints(rec), "used_len": len(o1), "fresh_out": ints(o2)})
 	}
 }
